@@ -208,6 +208,8 @@ struct Worker<V: Val, S: StratExt<V>> {
     seen_addrs: Vec<u64>,
     next_id: u64,
     res: RefCell<WorkerResult>,
+    /// path flags of the loads made by the calls since the last recorded operation
+    last_path: std::cell::Cell<u8>,
 }
 
 impl<V: Val, S: StratExt<V>> Worker<V, S> {
@@ -225,7 +227,8 @@ impl<V: Val, S: StratExt<V>> Worker<V, S> {
     }
 
     fn push_op(&self, c: usize, kind: Kind, a: u64, cur_addr: u64, ret: u64, ret_addr: u64, inv: u64, resp: u64) {
-        self.res.borrow_mut().ops.push(Op { t: self.t as u8, c: c as u8, kind, a, cur_addr, ret, ret_addr, inv, resp });
+        let path = self.last_path.replace(0);
+        self.res.borrow_mut().ops.push(Op { t: self.t as u8, c: c as u8, kind, a, cur_addr, ret, ret_addr, inv, resp, path });
     }
 
     /// Wrap a call into the crate: step counting, path markers.
@@ -247,6 +250,8 @@ impl<V: Val, S: StratExt<V>> Worker<V, S> {
             }
             use arc_swap::verif::Site as St;
             let has = |s: St| marks & (1u128 << (s as u16)) != 0;
+            let pf = path_flags(marks);
+            self.last_path.set(self.last_path.get() | pf);
             let mut bump = |k: &'static str| *res.paths.entry(k).or_insert(0) += 1;
             if has(St::ATTEMPT_CONFIRMED) {
                 bump("load.fast_confirmed");
@@ -540,9 +545,13 @@ impl<V: Val, S: StratExt<V>> Worker<V, S> {
                 if nest {
                     // Re-entrancy: use the same / another container from inside the closure.
                     let i0 = sh.clock.fetch_add(1, SeqCst);
+                    let saved = sched::take_marks();
                     let g = conts[other].load();
+                    let m = sched::take_marks();
+                    sched::or_marks(saved | m);
+                    let npath = path_flags(m);
                     let i1 = sh.clock.fetch_add(1, SeqCst);
-                    nested.borrow_mut().push(Op { t: t as u8, c: other as u8, kind: Kind::Load, a: 0, cur_addr: 0, ret: g.vid(), ret_addr: g.addr() as u64, inv: i0, resp: i1 });
+                    nested.borrow_mut().push(Op { t: t as u8, c: other as u8, kind: Kind::Load, a: 0, cur_addr: 0, ret: g.vid(), ret_addr: g.addr() as u64, inv: i0, resp: i1, path: npath });
                     drop(g);
                 }
                 let k = attempts.borrow().len() as u64;
@@ -593,6 +602,28 @@ impl<V: Val, S: StratExt<V>> Worker<V, S> {
         }
         self.keep_owned(prev);
     }
+}
+
+fn path_flags(marks: u128) -> u8 {
+    use arc_swap::verif::Site as St;
+    let has = |s: St| marks & (1u128 << (s as u16)) != 0;
+    let mut pf = 0u8;
+    if has(St::ATTEMPT_CONFIRMED) {
+        pf |= lin::PATH_FAST;
+    }
+    if has(St::ATTEMPT_RETURNED) {
+        pf |= lin::PATH_RETURNED;
+    }
+    if has(St::ATTEMPT_PREPAID) {
+        pf |= lin::PATH_PREPAID;
+    }
+    if has(St::FALLBACK_CONFIRMED) {
+        pf |= lin::PATH_FB_CONFIRMED;
+    }
+    if has(St::FALLBACK_HELPED) {
+        pf |= lin::PATH_FB_HELPED;
+    }
+    pf
 }
 
 /// Conservation law at a quiescent point with guards alive (ledger rule 3).
@@ -749,6 +780,7 @@ where
                 seen_addrs: Vec::new(),
                 next_id: 0,
                 res: RefCell::new(WorkerResult { t, ..Default::default() }),
+                last_path: std::cell::Cell::new(0),
             };
             for _ in 0..nops {
                 let op = ALLW[w.rng.weighted(&weights)];
@@ -911,6 +943,48 @@ where
         for o in &sorted {
             hist_hash = mix(hist_hash, (o.t as u64) << 56 ^ (o.kind as u64) << 48 ^ o.ret.wrapping_mul(31) ^ o.a);
         }
+        // Known mechanism D5 (DESIGN.md section 3): a reader's stale first read P (value A of this
+        // container, since destroyed) is published as a debt; a writer of ANOTHER container, whose
+        // removed value B lives at the reused address P, pays that debt; the reader takes the
+        // "prepaid" branch and returns B. Such loads are reported under their own, precise kind
+        // and taken out of the history, so that everything else is still checked.
+        let mut written: HashSet<u64> = HashSet::new();
+        written.insert(init_ids[c]);
+        for o in all.iter() {
+            if o.kind != Kind::Load {
+                written.insert(o.a);
+            }
+        }
+        let written_addrs: HashSet<u64> = written.iter().filter(|id| **id != 0).filter_map(|id| addr_of.get(id).copied()).collect();
+        let mut d5: Vec<(u8, u64)> = Vec::new();
+        for o in all.iter() {
+            let reads = o.kind == Kind::Load || (o.kind == Kind::Cas && o.ret_addr != o.cur_addr);
+            if !reads || o.ret == 0 || o.ret == lin::ANY || written.contains(&o.ret) {
+                continue;
+            }
+            let reused_addr = written_addrs.contains(&o.ret_addr);
+            let prepaid_self = o.path & lin::PATH_PREPAID != 0;
+            let prepaid_helper = o.path & lin::PATH_FB_HELPED != 0
+                && writes.iter().any(|w| w.t != o.t && w.path & lin::PATH_PREPAID != 0 && o.inv < w.resp && w.inv < o.resp);
+            if reused_addr && (prepaid_self || prepaid_helper) {
+                d5.push((o.t, o.inv));
+                report(
+                    "C12",
+                    "prepaid-stale-debt-foreign-value",
+                    format!(
+                        "[{}] took the prepaid branch of the fast path{} and returned value {:x}, which was never stored in container {} but lives at address {:#x} where an earlier value of this container used to live (address reuse): a writer of another container paid the reader's stale debt",
+                        o.brief(), if prepaid_self { "" } else { " (inside the helping writer's replacement load)" }, o.ret, c, o.ret_addr
+                    ),
+                );
+            }
+        }
+        let filtered: Vec<Vec<Op>>;
+        let threads = if d5.is_empty() {
+            threads
+        } else {
+            filtered = threads.iter().map(|th| th.iter().filter(|o| !d5.contains(&(o.t, o.inv))).cloned().collect()).collect();
+            &filtered
+        };
         match lin::check(threads, init_ids[c], f, &addr_of, 400_000) {
             Verdict::Ok => runner::count("histories.linearizable", 1),
             Verdict::Violation(msg) => {
